@@ -715,7 +715,7 @@ class TriaMesh:
         mats[:, 2, 1] = vv[:, 4]
         mats[:, 2, 2] = vv[:, 5]
         # compute eigendecomposition (real for symmetric matrices)
-        evals, evecs = np.linalg.eig(mats)
+        evals, evecs = np.linalg.eigh(mats)
         evals = np.real(evals)
         evecs = np.real(evecs)
         # sort evals ascending
